@@ -166,7 +166,12 @@ func (ex *Explorer) done() {
 // ---------------------------------------------------------------------------
 
 func newPathState(ex *Explorer, it workItem) *pathState {
-	return &pathState{ex: ex, prefix: it.prefix, preModel: it.model, known: map[*Term]bool{}, names: map[string]int{}, reached: map[string]int{}}
+	ps := &pathState{ex: ex, prefix: it.prefix, preModel: it.model, known: map[*Term]bool{}, names: map[string]int{}, reached: map[string]int{}}
+	if len(it.prefix) == 0 {
+		ps.model = map[*Term]uint64{}
+		ps.modelOK = true
+	}
+	return ps
 }
 
 func (ps *pathState) setKnown(in *Interp, c *Term, v bool) {
@@ -340,6 +345,13 @@ func (ps *pathState) assume(in *Interp, c *Term) {
 		if !v {
 			panic(in.abort("infeasible", "assumption contradicts path"))
 		}
+		return
+	}
+	if ps.pos < len(ps.prefix) {
+		// replaying a prefix: this assumption was checked when the parent path ran
+		ps.assertLit(in, c, true)
+		ps.setKnown(in, c, true)
+		ps.modelOK = false
 		return
 	}
 	if ps.modelOK && c.Eval(ps.model, map[*Term]uint64{}) != 0 {
